@@ -650,6 +650,20 @@ pub struct TensorChain {
     geometric_membership: Option<Arc<GeometricMembershipManager>>,
 }
 
+/// Verification hook: a schedule point in `TensorChain::commit` between building the block
+/// and appending it. `None` (the default) does nothing.
+#[cfg(feature = "neumann_verif")]
+pub static VERIF_COMMIT_WINDOW: parking_lot::RwLock<Option<Arc<dyn Fn() + Send + Sync>>> =
+    parking_lot::RwLock::new(None);
+
+#[cfg(feature = "neumann_verif")]
+fn verif_commit_window() {
+    let hook = VERIF_COMMIT_WINDOW.read().clone();
+    if let Some(hook) = hook {
+        hook();
+    }
+}
+
 impl TensorChain {
     /// Create a new `TensorChain` with the given store.
     ///
@@ -1055,6 +1069,9 @@ impl TensorChain {
             .with_codes(quantized_codes)
             .with_state_root(state_root)
             .sign_and_build(&self.identity);
+
+        #[cfg(feature = "neumann_verif")]
+        verif_commit_window();
 
         match self.chain.append(block) {
             Ok(hash) => {
